@@ -147,9 +147,9 @@ Proof.
   - discriminate.
 Qed.
 
-Lemma before_flush_all g s objs : InvAll g s -> InvAll g (before_flush g s objs).
+Lemma before_flush_all g s objs ents : InvAll g s -> InvAll g (before_flush g s objs ents).
 Proof.
-  intro H. unfold before_flush. destruct (existsb (obj_modified g) objs); [|exact H].
+  intro H. unfold before_flush. destruct (existsb (obj_modified g) objs || existsb (tracked g) ents); [|exact H].
   destruct (u_cur (s_uow s)); [exact H | apply create_transaction_all; exact H].
 Qed.
 
@@ -164,8 +164,8 @@ Proof.
       split; [|rewrite E6; exact Hn].
       unfold Inv2. rewrite E1, E3, E5, E6, Eerr.
       split; [exact Hdb|]. split; [exact Hc|]. split; [exact VI|]. split; [exact Hcache | exact Herr]. }
-  pose proof (before_flush_all g s objs H) as [H1 [[Hdb [Hc [VI [Hcache Herr]]]] Hn]].
-  unfold flush. rewrite Hv. simpl. fold (before_flush g s objs). set (s1 := before_flush g s objs) in *.
+  pose proof (before_flush_all g s objs ents H) as [H1 [[Hdb [Hc [VI [Hcache Herr]]]] Hn]].
+  unfold flush. rewrite Hv. simpl. fold (before_flush g s objs ents). set (s1 := before_flush g s objs ents) in *.
   destruct (u_cur (s_uow s1)) as [T|] eqn:Ecur.
   2:{ simpl. unfold Inv2; simpl. split; [|intros _; exact (Hn eq_refl)].
       split; [exact Hdb|]. split; [exact Hc|]. split; [exact VI|]. split; [discriminate | exact Herr]. }
